@@ -40,6 +40,8 @@ type c18Case struct {
 	// Debug: the -d flag (the configuration output additionally lists every syscall site); the emitted profile must
 	// still load and mean the same
 	Debug bool `json:"debug,omitempty"`
+	// Dyn: the binary is a dynamically linked Go program (amd64 only)
+	Dyn bool `json:"dyn,omitempty"`
 }
 
 func drawC18(t *rapid.T) c18Case {
@@ -130,6 +132,7 @@ func drawC18(t *rapid.T) c18Case {
 	}
 	c.OutFile = rapid.IntRange(0, 4).Draw(t, "outFile") == 0
 	c.Debug = rapid.IntRange(0, 3).Draw(t, "debug") == 0
+	c.Dyn = c.GOARCH == "amd64" && rapid.IntRange(0, 3).Draw(t, "dyn") == 0
 	c.Blacklist = build("b", true)
 	for _, v := range c.Blacklist {
 		for _, n := range splitFlag(v) {
@@ -174,7 +177,11 @@ func checkC18(raw json.RawMessage) (ev.Result, error) {
 	if err := json.Unmarshal(raw, &c); err != nil {
 		return ev.Result{}, ev.Inconclusivef("bad case: %v", err)
 	}
-	rig, err := newProfRig(c.GOARCH)
+	rigArch := c.GOARCH
+	if c.Dyn && c.GOARCH == "amd64" {
+		rigArch = "amd64-dyn"
+	}
+	rig, err := newProfRig(rigArch)
 	if err != nil {
 		return ev.Result{}, ev.Inconclusivef("%v", err)
 	}
@@ -236,6 +243,9 @@ func checkC18(raw json.RawMessage) (ev.Result, error) {
 	res := ev.Result{Classes: []string{"format:" + c.Format, "binary:" + c.GOARCH}}
 	if c.Debug {
 		res.Classes = append(res.Classes, "debug-flag", "debug-flag/format:"+c.Format)
+	}
+	if c.Dyn {
+		res.Classes = append(res.Classes, "dynamically-linked-binary")
 	}
 	var run *profRun
 	if c.OutFile {
